@@ -153,4 +153,61 @@ Definition lbfgs_bounded (fuel : nat) (ls : lbsettings) (k : consts (T:=T)) (lo 
     let ni := lb_n_states ls in
     lb_loop fuel ls k lo hi
             (mkLb (clamp lo hi x) [] [] [] bs (-1) step 0 0 0 inf (o0 O) minus_one (repeat empty_slot (Z.to_nat ni)) []).
+
+(* ================= L-BFGS, unbounded (minimize_limited_memory_bfgs) ================= *)
+Definition lbu_step (ls : lbsettings) (k : consts (T:=T)) (q : lb_state) : result (T:=T) + lb_state :=
+  let s := lb_cg ls in
+  let ni := lb_n_states ls in
+  let need := b_utd q <? 1 in
+  let cf := if need then cost (b_x q) else b_cost q in
+  let g := if need then grad (b_x q) else b_gradient q in
+  let q1 := if need then mkLb (b_x q) g (b_prev_x q) (b_prev_g q) [] 1 (b_step q) 0 (b_it q) (b_samples q + 1) cf
+                              (if b_it q =? 0 then cf else b_start q) (b_gn q) (b_data q) (b_log q ++ [EvCostGradHess (b_x q)])
+            else q in
+  if negb (isfinite cf) then inl (lb_finish s MInvalidCost q1)
+  else if any_nonfinite isfinite g then inl (lb_finish s MInvalidGradient q1)
+  else
+    let gn := norm2 g in
+    let log1 := b_log q1 ++ [EvProgress (b_it q1) (b_x q1) cf gn] in
+    let q2 := mkLb (b_x q1) g (b_prev_x q1) (b_prev_g q1) [] (b_utd q1) (b_step q1) 0 (b_it q1) (b_samples q1) cf (b_start q1) gn (b_data q1) log1 in
+    if oleb O gn (g_thr s) then inl (lb_finish s MSuccess q2)
+    else
+      let n := b_it q2 in
+      let stored := 0 <? n in
+      let xd := vsub (b_x q2) (b_prev_x q2) in
+      let gd := vsub g (b_prev_g q2) in
+      let d1 := if stored then store (lb_tiny ls) ni (b_data q2) n xd gd else b_data q2 in
+      let lowest := Z.max 0 (n - ni) in
+      let cnt := Z.to_nat (n - lowest) in
+      let '(d2, dir) :=
+        if stored then
+          let '(d2, dir1) := loop_down cnt ni (n - 1) d1 g in
+          let gamma := odiv O (dot xd gd) (omax (lb_tiny ls) (dot gd gd)) in
+          (d2, vneg (loop_up cnt ni lowest d2 (vscale gamma dir1)))
+        else (d1, vscale (odiv O (b_step q2) (norm2 g)) (vneg g)) in
+      let curv := if n <? ni
+                  then odiv O (oadd O (omul O (g_curv s) (ofz (ni - n))) (omul O (lb_curv ls) (ofz n))) (ofz ni)
+                  else lb_curv ls in
+      let step := norm2 dir in
+      let o := line_search O cost grad norm2 osqrt isfinite s k None (b_x q2) dir step curv (oneg O (o1 O)) cf g (b_utd q2) (b_samples q2) [] in
+      let log2 := log1 ++ ev_states (ls_log o) in
+      let it' := n + 1 in
+      let status := match ls_status o with MSuccess => MNotYetConverged | st => st end in
+      let status' := match status with MNotYetConverged => if g_max_it s <=? it' then MMaxIterations else MNotYetConverged | _ => status end in
+      let q3 := mkLb (ls_x o) (ls_gradient o) (b_x q2) g [] (ls_utd o) (ls_step o) 0 it' (ls_samples o) (ls_cost_fn o) (b_start q2) gn d2 log2 in
+      match status' with
+      | MNotYetConverged => inr q3
+      | _ => inl (lb_finish s status' q3)
+      end.
+Fixpoint lbu_loop (fuel : nat) (ls : lbsettings) (k : consts (T:=T)) (q : lb_state) : result (T:=T) :=
+  match fuel with 0%nat => lb_result MOutOfFuel q (b_cost q) (b_log q) | S fuel' =>
+    match lbu_step ls k q with
+    | inl r => r
+    | inr q' => lbu_loop fuel' ls k q'
+    end
+  end.
+Definition lbfgs_unbounded (fuel : nat) (ls : lbsettings) (k : consts (T:=T)) (x : list T) (minus_one inf : T) : result (T:=T) :=
+  let s := lb_cg ls in
+  let step := if oltb O (o0 O) (g_max_step s) then g_max_step s else o1 O in
+  lbu_loop fuel ls k (mkLb x [] [] [] [] (-1) step 0 0 0 inf (o0 O) minus_one (repeat empty_slot (Z.to_nat (lb_n_states ls))) []).
 End MinimLBFGS.
